@@ -676,7 +676,7 @@ def r17_7(ctx):
     n = 0
     for bb, t in b.iter_calls():
         c = callee_of(t) or ""
-        if not c.endswith("::read_line"):
+        if not (c.endswith("::read_line") or c.endswith("::read_until")):
             continue
         n += 1
         a = t["args"][0]
@@ -686,7 +686,7 @@ def r17_7(ctx):
         ctx.ob("read_from_gui:line-framing", ok, b.where(b.term_loc(bb)),
                "read_line on `%s`%s" % (base, "" if ok else ": an adaptor between stdin and read_line can end a read in the middle of a line, and the remainder is then dispatched as a command of its own"))
     if n == 0:
-        raise AnchorMissing("no read_line call in %s" % READ)
+        raise AnchorMissing("no line read (read_line / read_until) in %s" % READ)
 
 
 SHARED_MUT = ("std::sync::mpsc::", "std::cell::", "std::sync::Mutex", "std::sync::RwLock", "std::sync::atomic::",
